@@ -1,5 +1,6 @@
 """C19 — Pareto filter, dominance predicate, distance-to-preference-vector transformations."""
 import contextlib
+import itertools
 import math
 from fractions import Fraction
 
@@ -25,20 +26,83 @@ def _f(x):
     return float(Fraction(x))
 
 
-def _arr(rows):
-    return numpy.array([[_f(v) for v in r] for r in rows], dtype=float).reshape(len(rows), -1)
+def _fr(x):
+    return Fraction(x)
+
+
+def _arr(rows, dtype="float64", layout="C"):
+    """matrix of exact values -> ndarray of the requested dtype / memory layout (same contents)"""
+    n = len(rows)
+    if dtype.startswith("int"):
+        a = numpy.array([[int(Fraction(v)) for v in r] for r in rows], dtype=dtype).reshape(n, -1)
+    else:
+        a = numpy.array([[_f(v) for v in r] for r in rows], dtype=dtype).reshape(n, -1)
+    if layout == "C":
+        return a
+    if layout == "F":
+        return numpy.asfortranarray(a)
+    if layout == "strided":            # every second row / column of a larger array filled with junk
+        big = numpy.full((2 * a.shape[0] + 1, 2 * a.shape[1] + 1), 77, dtype=a.dtype)
+        big[::2, ::2][:a.shape[0], :a.shape[1]] = a
+        return big[::2, ::2][:a.shape[0], :a.shape[1]]
+    if layout == "rev":                # negative strides
+        return a[::-1, ::-1].copy()[::-1, ::-1]
+    raise ValueError(layout)
+
+
+def _vec(vals, dtype="float64"):
+    if dtype.startswith("int"):
+        return numpy.array([int(Fraction(v)) for v in vals], dtype=dtype)
+    return numpy.array([_f(v) for v in vals], dtype=dtype)
+
+
+@contextlib.contextmanager
+def _deadline(seconds):
+    """a call of the implementation that does not return is an implementation failure (TimeoutError), not a hang of
+    the check; only armed in the main thread"""
+    import signal
+    import threading
+    if threading.current_thread() is not threading.main_thread():
+        yield
+        return
+
+    def _raise(signum, frame):
+        raise TimeoutError(f"implementation did not return within {seconds} s")
+
+    old = signal.signal(signal.SIGALRM, _raise)
+    signal.setitimer(signal.ITIMER_REAL, seconds)
+    try:
+        yield
+    finally:
+        signal.setitimer(signal.ITIMER_REAL, 0)
+        signal.signal(signal.SIGALRM, old)
+
+
+DIST_KW = {"core": ("objfn_minmax", "objfn_pseudoweight"),     # (sign keyword, line keyword)
+           "prob": ("vec_wt", "obj_wt"),
+           "transfn": ("wt", "objfn_wt")}
+VARIANTS = ("core", "prob", "transfn")
+MODEL_VARIANT = {"core": "core", "prob": "prob", "transfn": "transfn", "protocol": "prob"}
 
 
 class C19(Prop):
     PID = "C19"
     MODULE = "PybropsModel.Props.C19"
-    N_QUICK = 400
+    N_QUICK = 440
     N_THOROUGH = 12000
-    RULE = ("point sets of 1-14 points x 1-4 objectives over small integers/dyadics with forced duplicates, "
-            "coordinate ties and collinear fronts, weight vectors with mixed signs; dominance pairs with "
-            "feasible/infeasible mixes; distance transforms in the three source variants (constant objectives, "
-            "fronts at a large level, single-objective fronts, fronts collinear with the preference line = "
-            "distance exactly 0), translation pairs (the same front translated by a large vector).  Non-trivial = "
+    RULE = ("point sets of 1-14 points x 1-4 objectives (plus fronts of 130-1100 points: pivot index past 127/255, more "
+            "than 1024 points) over small integers / dyadics with forced duplicates, coordinate ties, collinear fronts, "
+            "near-ties (differences of 2^-20..2^-40 at levels 0, 1, 25000, 2^30), tiny and huge magnitudes; weight vectors "
+            "with mixed signs, fractional magnitudes and an occasional zero; integer / float32 / float64 matrices in C, "
+            "Fortran, strided and negative-stride layouts; mask-first and index-first call orders; positive rescaling of the "
+            "weights by non-dyadic factors; permuted copies; histories on ONE array object edited in place between calls.  "
+            "Dominance pairs with feasible / infeasible mixes, violations from 5e-324 to 1e300 incl. (0, 1e-8], negative "
+            "slack, objective near-ties, integer objective arrays, empty objective vectors.  Distance transforms in the three "
+            "source copies (positional and keyword call forms, extra kwargs, integer matrices, non-contiguous layouts, "
+            "non-dyadic preference vectors, constant objectives, ranges of 2^-40 next to 2^40, fronts at a large level, "
+            "single-objective fronts, fronts collinear with the preference line = distance exactly 0, > 1024 points), the "
+            "three copies run on the same front and compared with each other, translation pairs, in-place edit histories; "
+            "weighted-sum / sum transformations (correspondence only).  Non-trivial = "
             "pareto case with >= 2 distinct points and at least one dominated or duplicated point, "
             "dominates case with differing objective vectors, dist case with >= 2 points and >= 2 objectives, "
             "dist_pair case with >= 2 points, >= 2 objectives and a non-zero translation")
@@ -48,16 +112,55 @@ class C19(Prop):
     REL = Fraction(1, 10 ** 9)
     ABS = Fraction(1, 10 ** 12)
     ABS_ZERO = Fraction(1, 10 ** 18)     # fronts collinear with the line: |d| <= 1e-9
-    ASSUMPTIONS = ["inputs are integers / dyadic rationals so that the float computation is exact up to 1e-9",
+    ASSUMPTIONS = ["inputs are integers / dyadic rationals so that the float computation is exact up to 1e-9 "
+                   "(weights times objective values are exactly representable, or order-preserving for the rescaled weights)",
                    "NaN output of the unguarded transformation is modelled as `none`"]
 
-    # ------------------------------------------------------------------ generation
+    WTS = [1, -1, 1, -1, 2, Fraction(1, 2), -3, Fraction(1, 4), Fraction(5, 2), Fraction(-1, 2)]
+    SCALES = [0.1, 0.3, 3.7, 1e-9, 1e9, 7.0, 1.0 / 3.0]
+    CVS = [0, 0, -1, Fraction(1, 2), 1, 2, 1e-9, 5e-9, 1e-8, 1e-12, 1e-5, 1e-300, 5e-324, -1e-9, -1e-300, 1e300,
+           2.0 ** -30, 1 + 2.0 ** -40, 25000, 25000.0001]
+    LINES_ND = [0.7, 0.35, 0.1, 0.25, 0.75, 1.0 / 3.0, 2.5]
+
+    # ------------------------------------------------------------------ corpus
     def corpus(self):
+        big = lambda n: [[i, n - i] for i in range(n)]
+        rr = __import__("random").Random(19)
+        b140 = big(140); rr.shuffle(b140)
+        b300 = big(300) + [[i, 299 - i] for i in range(0, 300, 7)]; rr.shuffle(b300)
+        # 1030 points on 26 anti-diagonals, only the top one (40 points) efficient
+        b1030 = [[i, 40 - i - d] for d in range(26) for i in range(40)][:1030]; rr.shuffle(b1030)
+        d1030 = [[(i * 37) % 1031, (i * i) % 97, 5] for i in range(1030)]
         return [
             {"kind": "pareto", "fmat": [[1, 2], [2, 1], [1, 1], [2, 1], ["1/2", 3]], "wt": [1, 1]},
             {"kind": "pareto", "fmat": [[1, 1], [1, 1], [1, 1]], "wt": [1, -1]},
             {"kind": "pareto", "fmat": [[3]], "wt": [2]},
             {"kind": "pareto", "fmat": [[0, 0], [1, 1], [2, 2], [2, 2], [1, 3]], "wt": [-1, 1]},
+            # integer-valued objective matrices with fractional weights (counts weighted by 1/2, 1/4, 5/2)
+            {"kind": "pareto", "fmat": [[1, 3], [2, 2], [3, 1]], "wt": [1, "1/4"], "fdtype": "int64"},
+            {"kind": "pareto", "fmat": [[1, 3], [2, 2], [3, 1], [3, 0]], "wt": ["1/2", 1], "fdtype": "int32", "layout": "F"},
+            {"kind": "pareto", "fmat": [[4, 1], [3, 2], [5, 0], [3, 2]], "wt": ["-1/2", "5/2"], "fdtype": "int8",
+             "order": "idx_first"},
+            {"kind": "pareto", "fmat": [[1, 3], [2, 2], [3, 1]], "wt": [1, -1], "fdtype": "int64", "wdtype": "int64"},
+            # near-ties and large common offsets
+            {"kind": "pareto", "fmat": [[25000, 1], ["26214400001/1048576", 0], [25000, 0]], "wt": [1, 1]},
+            {"kind": "pareto", "fmat": [["2147483649/2", 1], ["2147483647/2", 1], [1073741824, 1]], "wt": [1, -1]},
+            {"kind": "pareto", "fmat": [[1, 0], ["1073741825/1073741824", 0], [1, "1/1099511627776"]], "wt": [2, 1]},
+            {"kind": "pareto", "fmat": [[1, 2], [2, 1], [1, 1]], "wt": [1, 1], "flag": "np"},
+            {"kind": "pareto", "fmat": [[1, 2], [2, 1], [1, 1]], "wt": [1, -1], "flag": "int", "order": "idx_first"},
+            # zero weight: the objective is ignored
+            {"kind": "pareto", "fmat": [[1, 5], [2, 0], [2, 7]], "wt": [1, 0]},
+            # positive rescaling of the weights by non-dyadic factors
+            {"kind": "pareto", "fmat": [[1, 3], [2, 2], [3, 1], [1, 1]], "wt": [1, -1], "scale": canon.enc([0.1, 1e9])},
+            # sizes past 127 / 255 surviving points and past 1024 points
+            {"kind": "pareto", "fmat": b140, "wt": [1, 1]},
+            {"kind": "pareto", "fmat": b300, "wt": [1, 2], "order": "idx_first"},
+            {"kind": "pareto", "fmat": b1030, "wt": [1, 1]},
+            {"kind": "pareto_seq", "fdtype": "float64", "steps": [
+                {"fmat": [[1, 2], [2, 1], [0, 0]], "wt": [1, 1]},
+                {"fmat": [[1, 2], [2, 1], [3, 3]], "wt": [1, 1]},
+                {"fmat": [[1, 2], [2, 1], [3, 3]], "wt": [-1, -1]}]},
+            {"kind": "pareto_perm", "fmat": [[1, 2], [2, 1], [1, 1], [2, 1], [0, 3]], "wt": [1, 1], "perm": [4, 3, 2, 1, 0]},
             {"kind": "dist", "variant": "core", "mat": [[1, 2], [2, 2], [0, 2]], "sign": [1, 1], "line": [1, 1]},
             {"kind": "dist", "variant": "prob", "mat": [[1, 2], [2, 2], [0, 2]], "sign": [1, 1], "line": [1, 1]},
             {"kind": "dist", "variant": "transfn", "mat": [[1, 2], [2, 2], [0, 2]], "sign": [1, 1], "line": [1, 1]},
@@ -73,6 +176,30 @@ class C19(Prop):
              "line": [1, 1], "expect_zero": True},
             {"kind": "dist", "variant": "prob", "mat": [[0, 10, 5], [1, 12, 5], [4, 18, 5]], "sign": [-1, -1, 1],
              "line": [2, 2, 0], "expect_zero": True},
+            # keyword call form (as SelectionProtocol calls its ndset_trans), integer matrix, tiny / huge ranges
+            {"kind": "dist", "variant": "prob", "mat": [[1, 2], [2, 1], [0, 0]], "sign": [1, -1], "line": [1, 1],
+             "call": "kw_extra", "mdtype": "int64"},
+            {"kind": "dist", "variant": "core", "mat": [[0, 0], ["1/1099511627776", 1099511627776], ["3/1099511627776", 0]],
+             "sign": [1, 1], "line": [1, 2], "call": "kw", "layout": "F"},
+            {"kind": "dist", "variant": "transfn", "mat": [[3, 1], [1, 2], [2, 3]], "sign": [1, 1],
+             "line": canon.enc([0.7, 0.0]), "layout": "strided"},
+            {"kind": "dist", "variant": "core", "mat": [[3, 1, 5], [1, 2, 5], [2, 3, 5]], "sign": [1, 1, -1],
+             "line": canon.enc([0.7, 0.7, 0.0])},
+            # points exactly on the preference line with a non-dyadic preference vector (cancellation-prone)
+            *[{"kind": "dist", "variant": v, "mat": [[4, 5], [3, 5], [1, 5]], "sign": [1, 1], "line": canon.enc([0.7, 0.0]),
+               "expect_zero": True} for v in VARIANTS],
+            *[{"kind": "dist", "variant": v, "mat": [[4, 5], [3, 5], [1, 5]], "sign": [1, 1], "line": canon.enc([0.7, 0.7])}
+              for v in VARIANTS],
+            *[{"kind": "dist", "variant": v, "mat": [[3, 3, 5], [1, 2, 7], [2, 1, 6], [1, 1, 5]], "sign": [1, 1, -1],
+               "line": canon.enc(l)} for v in VARIANTS for l in ([0.7, 0.7, 0.0], [0.0, 0.35, 0.0], [0.1, 0.1, 0.1])],
+            {"kind": "dist", "variant": "prob", "mat": d1030, "sign": [1, -1, 1], "line": [1, 2, 1]},
+            {"kind": "dist3", "mat": [[1, 2, 0], [2, 1, 0], [0, 0, 0], [2, 2, 0]], "sign": [1, -1, 1], "line": [1, 2, 3]},
+            {"kind": "dist", "variant": "protocol", "mat": [[1, 2, 0], [2, 1, 0], [0, 0, 0], [3, 2, 0]], "sign": [1, 1, 1],
+             "line": [1, 1, 1]},
+            {"kind": "dist_seq", "steps": [
+                {"variant": "core", "mat": [[1, 2], [2, 1], [0, 0]], "sign": [1, 1], "line": [1, 1]},
+                {"variant": "prob", "mat": [[1, 2], [2, 1], [4, 0]], "sign": [1, -1], "line": [1, 1]},
+                {"variant": "transfn", "mat": [[1, 2], [2, 1], [4, 0]], "sign": [-1, -1], "line": [1, 3]}]},
             # translation pairs
             {"kind": "dist_pair", "variant": "core", "mat": [[1, 2], [2, 1], [0, 0]], "shift": [8388608, -10000000],
              "sign": [1, -1], "line": [1, 2]},
@@ -83,124 +210,526 @@ class C19(Prop):
             {"kind": "dominates", "obj1": [1, 2], "cv1": -2, "obj2": [1, 1], "cv2": 0},
             {"kind": "dominates", "obj1": [1, 2], "cv1": 0, "obj2": [1, 2], "cv2": 0},
             {"kind": "dominates", "obj1": [1, 2], "cv1": 1, "obj2": [0, 0], "cv2": 2},
+            {"kind": "dominates", "obj1": [1, 2], "cv1": 0, "obj2": [2, 1], "cv2": -1},
+            {"kind": "dominates", "obj1": [1, 2, 2], "cv1": 0, "obj2": [1, 3, 1], "cv2": 0},
+            # tiny positive violations are violations
+            {"kind": "dominates", "obj1": [1, 1], "cv1": 0, "obj2": [1, 1], "cv2": canon.enc(1e-9)},
+            {"kind": "dominates", "obj1": [1, 1], "cv1": canon.enc(-1e-9), "obj2": [1, 1], "cv2": canon.enc(5e-9)},
+            {"kind": "dominates", "obj1": [2, 2], "cv1": canon.enc(1e-9), "obj2": [1, 1], "cv2": canon.enc(5e-9)},
+            {"kind": "dominates", "obj1": [0, 0], "cv1": canon.enc(5e-324), "obj2": [1, 1], "cv2": 0},
+            {"kind": "dominates", "obj1": [1, 2], "cv1": 0, "obj2": ["1073741825/1073741824", 2], "cv2": 0},
+            {"kind": "dominates", "obj1": [], "cv1": 0, "obj2": [], "cv2": 0},
+            {"kind": "dominates", "obj1": [1, 2], "cv1": 0, "obj2": [1, 3], "cv2": -1, "odtype": "int64", "cvform": "int"},
+            {"kind": "wsum", "fn": "dot", "mat": [[1, 2], [2, 1], ["1/2", 0]], "wt": [1, -2]},
+            {"kind": "wsum", "fn": "sum1", "mat": [[1, 2], [2, 1], ["1/2", 0]]},
+            {"kind": "wsum", "fn": "sum0", "mat": [[1, 2], [2, 1], ["1/2", 0]]},
+            {"kind": "wsum", "fn": "sumall", "mat": [[1, 2], [2, 1], ["1/2", 0]]},
+            {"kind": "wsum", "fn": "latent_sum", "vec": [1, 2, "1/2"]},
+            {"kind": "wsum", "fn": "latent_dot", "vec": [1, 2, "1/2"], "wt": [2, -1, 4]},
         ]
 
+    # ------------------------------------------------------------------ generation
     def _points(self, rng):
         npt = rng.choice([1, 2, 2, 3, 3, 4, 5, 6, 8, 10, 14])
         nobj = rng.choice([1, 2, 2, 3, 3, 4])
         hi = rng.choice([1, 2, 3, 5])
         style = rng.random()
         pts = [[rng.randint(0, hi) for _ in range(nobj)] for _ in range(npt)]
-        if style < 0.25 and npt > 1:      # duplicates
+        if style < 0.2 and npt > 1:      # duplicates
             for _ in range(rng.randint(1, npt)):
                 pts[rng.randrange(npt)] = list(pts[rng.randrange(npt)])
-        elif style < 0.4 and nobj >= 2:    # collinear anti-diagonal front
+        elif style < 0.32 and nobj >= 2:    # collinear anti-diagonal front
             pts = [[i, npt - i] + [0] * (nobj - 2) for i in range(npt)]
             rng.shuffle(pts)
-        elif style < 0.5:
+        elif style < 0.42:
             pts = [[Fraction(v, 2) for v in r] for r in pts]
+        elif style < 0.58:                 # near-ties at a common level: level + k * 2^-e
+            for j in range(nobj):
+                level, e = rng.choice([(0, 40), (1, 30), (25000, 20), (25000, 30), (2 ** 30, 1), (1, 40), (0, 30)])
+                for p in pts:
+                    p[j] = level + Fraction(rng.randint(0, 3) - (1 if level else 0), 2 ** e)
+        elif style < 0.64:                 # one objective tiny, one huge
+            for j in range(nobj):
+                m = rng.choice([Fraction(1, 2 ** 40), 2 ** 40, 1])
+                for p in pts:
+                    p[j] = p[j] * m
         return pts, nobj
+
+    @staticmethod
+    def _exact(pts):
+        """every value is a binary64 number (what numpy sees is what the model sees)"""
+        return all(Fraction(float(Fraction(v))) == Fraction(v) for r in pts for v in r)
+
+    @staticmethod
+    def _is_int(pts):
+        return all(Fraction(v).denominator == 1 for r in pts for v in r)
+
+    @staticmethod
+    def _f32_ok(pts):
+        return all(Fraction(float(numpy.float32(float(Fraction(v))))) == Fraction(v) for r in pts for v in r)
+
+    def _matrix_form(self, rng, pts, allow_int=True):
+        """dtype / layout of the matrix handed to the implementation"""
+        form = {}
+        r = rng.random()
+        if allow_int and self._is_int(pts) and r < 0.45:
+            mx = max([abs(int(Fraction(v))) for row in pts for v in row] + [0])
+            form["fdtype"] = rng.choice(["int64", "int64", "int32"] + (["int8"] if mx < 40 else []))
+            if mx >= 2 ** 31:
+                form["fdtype"] = "int64"
+        elif r < 0.55 and self._f32_ok(pts):
+            form["fdtype"] = "float32"
+        lay = rng.random()
+        if lay < 0.3:
+            form["layout"] = rng.choice(["F", "strided", "rev"])
+        return form
+
+    def _gen_pareto(self, rng):
+        pts, nobj = self._points(rng)
+        wt = [rng.choice(self.WTS) for _ in range(nobj)]
+        if rng.random() < 0.04:
+            wt[rng.randrange(nobj)] = 0
+        case = {"kind": "pareto", "fmat": canon.enc(pts), "wt": canon.enc(wt)}
+        case.update(self._matrix_form(rng, pts))
+        if case.get("fdtype", "").startswith("int") and all(Fraction(w).denominator == 1 for w in wt) and rng.random() < 0.3:
+            case["wdtype"] = "int64"
+        if rng.random() < 0.5:
+            case["order"] = "idx_first"
+        if rng.random() < 0.12:
+            case["flag"] = rng.choice(["np", "int"])
+        if rng.random() < 0.15 and "wdtype" not in case:
+            case["scale"] = canon.enc([rng.choice(self.SCALES) for _ in range(nobj)])
+        return case
+
+    def _gen_big(self, rng, tier):
+        """fronts whose surviving list is longer than 127 / 255 points, point sets larger than 1024 (4096 in thorough)"""
+        r = rng.random()
+        if r < 0.5:
+            n = rng.choice([130, 150, 260, 300])
+            pts = [[i, n - i] for i in range(n)] + [[rng.randint(0, n - 1), 0] for _ in range(rng.randint(0, 20))]
+        else:
+            n = rng.choice([1030, 1100] + ([4100, 4200] if tier == "thorough" else []))
+            k = rng.choice([20, 40])
+            pts = [[i % k, k - (i % k) - (i // k)] for i in range(n)]
+        rng.shuffle(pts)
+        case = {"kind": "pareto", "fmat": pts, "wt": rng.choice([[1, 1], [2, "1/2"], [1, 3]])}
+        if rng.random() < 0.5:
+            case["fdtype"] = "int64"
+        if rng.random() < 0.5:
+            case["order"] = "idx_first"
+        return case
+
+    def _gen_pareto_seq(self, rng):
+        pts, nobj = self._points(rng)
+        npt = len(pts)
+        steps = []
+        cur = [list(r) for r in pts]
+        wt = [rng.choice(self.WTS) for _ in range(nobj)]
+        for s in range(rng.randint(2, 4)):
+            if s:
+                what = rng.random()
+                if what < 0.6:         # edit some entries in place
+                    for _ in range(rng.randint(1, 2)):
+                        i, j = rng.randrange(npt), rng.randrange(nobj)
+                        cur[i][j] = Fraction(cur[i][j]) + rng.choice([1, -1, 2, 5, Fraction(1, 2)])
+                elif what < 0.8:       # re-assign the weights
+                    wt = [rng.choice(self.WTS) for _ in range(nobj)]
+                else:                  # flip a sign
+                    j = rng.randrange(nobj)
+                    wt = list(wt)
+                    wt[j] = -Fraction(wt[j])
+            steps.append({"fmat": canon.enc(cur), "wt": canon.enc(wt),
+                          "order": rng.choice(["mask_first", "idx_first", "mask_only", "idx_only"])})
+        return {"kind": "pareto_seq", "fdtype": "float64", "steps": steps}
+
+    def _gen_pareto_perm(self, rng):
+        pts, nobj = self._points(rng)
+        wt = [rng.choice(self.WTS) for _ in range(nobj)]
+        perm = list(range(len(pts)))
+        rng.shuffle(perm)
+        if rng.random() < 0.3:
+            perm = perm[::-1] if perm == sorted(perm) else sorted(perm, reverse=True)
+        case = {"kind": "pareto_perm", "fmat": canon.enc(pts), "wt": canon.enc(wt), "perm": perm}
+        case.update(self._matrix_form(rng, pts))
+        return case
+
+    def _gen_dominates(self, rng):
+        nobj = rng.choice([0, 1, 1, 2, 2, 3, 4]) if rng.random() < 0.3 else rng.randint(1, 4)
+        o1 = [rng.randint(0, 3) for _ in range(nobj)]
+        o2 = [v + rng.choice([0, 0, 1, -1]) for v in o1] if rng.random() < 0.7 else \
+            [rng.randint(0, 3) for _ in range(nobj)]
+        case = {"kind": "dominates"}
+        r = rng.random()
+        if r < 0.25 and nobj:             # objective near-ties / large common level
+            level, e = rng.choice([(1, 30), (25000, 20), (2 ** 30, 1), (0, 40), (1, 40)])
+            o1 = [level + Fraction(v, 2 ** e) for v in o1]
+            o2 = [level + Fraction(v, 2 ** e) for v in o2]
+        elif r < 0.45:
+            case["odtype"] = rng.choice(["int64", "int32"])
+        feas = [c for c in self.CVS if Fraction(c) <= 0]
+        infe = [c for c in self.CVS if Fraction(c) > 0]
+        c1 = rng.choice(feas if rng.random() < 0.5 else infe)
+        c2 = rng.choice(feas if rng.random() < 0.5 else infe)
+        if rng.random() < 0.1:
+            c2 = c1
+        if all(Fraction(c).denominator == 1 for c in (c1, c2)) and rng.random() < 0.3:
+            case["cvform"] = "int"
+        elif rng.random() < 0.3:
+            case["cvform"] = rng.choice(["np64", "0d"])
+        case.update({"obj1": canon.enc(o1), "cv1": canon.enc(c1), "obj2": canon.enc(o2), "cv2": canon.enc(c2)})
+        return case
+
+    def _line(self, rng, nobj):
+        if rng.random() < 0.25:
+            if rng.random() < 0.4:                   # all preference on one objective / on a subset, equal entries
+                c = rng.choice(self.LINES_ND)
+                line = [c * rng.choice([0, 0, 1]) for _ in range(nobj)]
+            else:
+                line = [rng.choice([0.0] + self.LINES_ND) for _ in range(nobj)]
+            if not any(line):
+                line[rng.randrange(nobj)] = rng.choice(self.LINES_ND)
+            return canon.enc([float(v) for v in line])
+        line = [rng.choice([0, 1, 1, 2, 3]) for _ in range(nobj)]
+        if not any(line):
+            line[rng.randrange(nobj)] = 1
+        return line
+
+    def _dist_form(self, rng, pts):
+        form = {}
+        r = rng.random()
+        if self._is_int(pts) and r < 0.3 and all(abs(int(Fraction(v))) < 2 ** 31 for row in pts for v in row):
+            form["mdtype"] = rng.choice(["int64", "int32"])
+            if rng.random() < 0.3:
+                form["sdtype"] = "int64"
+        lay = rng.random()
+        if lay < 0.4:
+            form["layout"] = rng.choice(["F", "F", "strided", "rev"])
+        c = rng.random()
+        if c < 0.45:
+            form["call"] = rng.choice(["kw", "kw_extra", "pos_extra"])
+        return form
+
+    def _front(self, rng):
+        pts, nobj = self._points(rng)
+        if rng.random() < 0.3 and nobj >= 1:     # one constant objective
+            j = rng.randrange(nobj)
+            for p in pts:
+                p[j] = pts[0][j]
+        if rng.random() < 0.3:                   # translated front: a large level with a small range
+            off = [rng.choice([0, 2 ** 20, 10 ** 6, 2 ** 23, -(10 ** 7), 12345678]) for _ in range(nobj)]
+            moved = [[Fraction(v) + o for v, o in zip(p, off)] for p in pts]
+            if self._exact(moved):
+                pts = moved
+        return pts, nobj
+
+    def _gen_dist(self, rng, kind="dist"):
+        pts, nobj = self._front(rng)
+        sign = [rng.choice([1, -1]) for _ in range(nobj)]
+        case = {"kind": kind, "mat": canon.enc(pts), "sign": sign, "line": self._line(rng, nobj)}
+        if kind == "dist":
+            case["variant"] = rng.choice(VARIANTS)
+        case.update(self._dist_form(rng, pts))
+        if kind == "dist3":
+            case.pop("call", None)
+        if kind == "dist" and rng.random() < 0.12:
+            # the protocol's default transformation with its default keyword arguments (all ones)
+            case.update({"variant": "protocol", "sign": [1] * nobj, "line": [1] * nobj})
+            for f in ("call", "sdtype"):
+                case.pop(f, None)
+        return case
+
+    def _gen_dist_big(self, rng, tier):
+        n = rng.choice([1030, 1100] + ([4100] if tier == "thorough" else []))
+        nobj = rng.choice([2, 3])
+        pts = [[rng.randint(0, 50) for _ in range(nobj)] for _ in range(n)]
+        sign = [rng.choice([1, -1]) for _ in range(nobj)]
+        return {"kind": "dist", "variant": rng.choice(VARIANTS), "mat": pts, "sign": sign, "line": self._line(rng, nobj)}
+
+    def _gen_dist_pair(self, rng):
+        pts, nobj = self._points(rng)
+        if rng.random() < 0.3:                   # one constant objective
+            j = rng.randrange(nobj)
+            for p in pts:
+                p[j] = pts[0][j]
+        big = [2 ** 20, 10 ** 6, 2 ** 23, -(10 ** 7), 12345678]
+        shift = [rng.choice([0, 3, -1] + big) for _ in range(nobj)]
+        if not any(abs(v) > 1000 for v in shift):
+            shift[rng.randrange(nobj)] = rng.choice(big)
+        if not self._exact([[Fraction(v) + o for v, o in zip(p, shift)] for p in pts]):
+            shift = [rng.choice([1, -2, 3, 0]) for _ in range(nobj)]     # near-tie / huge fronts: keep the sums exact
+            if not any(shift):
+                shift[0] = 1
+            if not self._exact([[Fraction(v) + o for v, o in zip(p, shift)] for p in pts]):
+                pts = [[Fraction(v).numerator % 5 for v in r] for r in pts]
+        sign = [rng.choice([1, -1]) for _ in range(nobj)]
+        line = [rng.choice([0, 1, 1, 2, 3]) for _ in range(nobj)]
+        if not any(line):
+            line[rng.randrange(nobj)] = 1
+        return {"kind": "dist_pair", "variant": rng.choice(VARIANTS),
+                "mat": canon.enc(pts), "shift": shift, "sign": sign, "line": line}
+
+    def _gen_dist_zero(self, rng):
+        # front collinear with the preference line: objective j is a_j + u_i * 2^k_j where the line is
+        # non-zero, constant where it is zero; u takes the values 0 and 1 => scaled point = u_i * (1,..,1)
+        npt = rng.choice([1, 2, 3, 5, 8])
+        nobj = rng.choice([1, 1, 2, 3, 4])
+        c = rng.choice([1, 2, 3] + self.LINES_ND)         # also non-dyadic: L.L * (1/L.L) need not round to 1
+        line = [c * rng.choice([0, 1, 1]) for _ in range(nobj)]
+        if not any(line):
+            line[rng.randrange(nobj)] = c
+        line = canon.enc([float(v) if isinstance(c, float) else v for v in line])
+        us = [Fraction(rng.randint(0, 8), 8) for _ in range(npt)]
+        if npt >= 2:
+            us[0], us[1] = Fraction(0), Fraction(1)
+            rng.shuffle(us)
+        sg = rng.choice([1, -1])
+        a = [rng.choice([0, 1, -3, 2 ** 20, 10 ** 6]) for _ in range(nobj)]
+        k = [2 ** rng.randint(0, 4) for _ in range(nobj)]
+        pts = [[a[j] + (u * k[j] if line[j] else 0) for j in range(nobj)] for u in us]
+        return {"kind": "dist", "variant": rng.choice(VARIANTS),
+                "mat": canon.enc(pts), "sign": [sg] * nobj, "line": line, "expect_zero": True}
+
+    def _gen_dist_seq(self, rng):
+        pts, nobj = self._points(rng)
+        pts = [[Fraction(v) for v in r] for r in pts]
+        npt = len(pts)
+        steps = []
+        sign = [rng.choice([1, -1]) for _ in range(nobj)]
+        line = self._line(rng, nobj)
+        for s in range(rng.randint(2, 4)):
+            if s:
+                what = rng.random()
+                if what < 0.6:
+                    i, j = rng.randrange(npt), rng.randrange(nobj)
+                    pts[i][j] = pts[i][j] + rng.choice([1, -1, 2, 5, Fraction(1, 2)])
+                elif what < 0.8:
+                    sign = [rng.choice([1, -1]) for _ in range(nobj)]
+                else:
+                    line = self._line(rng, nobj)
+            steps.append({"variant": rng.choice(VARIANTS), "mat": canon.enc(pts), "sign": list(sign), "line": line})
+        return {"kind": "dist_seq", "steps": steps}
+
+    def _gen_wsum(self, rng):
+        pts, nobj = self._points(rng)
+        fn = rng.choice(["dot", "dot", "sum1", "sum0", "sumall", "latent_sum", "latent_dot"])
+        if any(Fraction(v).denominator > 2 ** 21 for r in pts for v in r):
+            pts = [[Fraction(v).numerator % 7 for v in r] for r in pts]        # keep float sums exact
+        if fn in ("latent_sum", "latent_dot"):
+            case = {"kind": "wsum", "fn": fn, "vec": canon.enc(pts[0])}
+            if fn == "latent_dot":
+                case["wt"] = canon.enc([rng.choice(self.WTS) for _ in range(nobj)])
+            return case
+        case = {"kind": "wsum", "fn": fn, "mat": canon.enc(pts)}
+        if fn == "dot":
+            case["wt"] = canon.enc([rng.choice(self.WTS) for _ in range(nobj)])
+        return case
 
     def generate(self, rng, n, tier):
         out = []
-        for i in range(n):
+        nbig = 2 if tier == "quick" else max(4, n // 150)
+        for i in range(nbig):
+            out.append(self._gen_big(rng, tier) if i % 2 == 0 else self._gen_dist_big(rng, tier))
+        for i in range(n - nbig):
             r = rng.random()
-            if r < 0.55:
-                pts, nobj = self._points(rng)
-                wt = [rng.choice([1, -1, 1, -1, 2, Fraction(1, 2), -3]) for _ in range(nobj)]
-                out.append({"kind": "pareto", "fmat": canon.enc(pts), "wt": canon.enc(wt)})
-            elif r < 0.75:
-                nobj = rng.randint(1, 4)
-                o1 = [rng.randint(0, 3) for _ in range(nobj)]
-                o2 = [v + rng.choice([0, 0, 1, -1]) for v in o1] if rng.random() < 0.7 else \
-                    [rng.randint(0, 3) for _ in range(nobj)]
-                cv = lambda: rng.choice([0, 0, -1, Fraction(1, 2), 1, 2])
-                out.append({"kind": "dominates", "obj1": o1, "cv1": canon.enc(cv()), "obj2": o2,
-                            "cv2": canon.enc(cv())})
-            elif r < 0.84:
-                pts, nobj = self._points(rng)
-                if rng.random() < 0.3:                   # one constant objective
-                    j = rng.randrange(nobj)
-                    for p in pts:
-                        p[j] = pts[0][j]
-                shift = [rng.choice([0, 3, -1, 2 ** 20, 10 ** 6, 2 ** 23, -(10 ** 7), 12345678]) for _ in range(nobj)]
-                if not any(abs(v) > 1000 for v in shift):
-                    shift[rng.randrange(nobj)] = rng.choice([2 ** 20, 10 ** 6, 2 ** 23, -(10 ** 7)])
-                sign = [rng.choice([1, -1]) for _ in range(nobj)]
-                line = [rng.choice([0, 1, 1, 2, 3]) for _ in range(nobj)]
-                if not any(line):
-                    line[rng.randrange(nobj)] = 1
-                out.append({"kind": "dist_pair", "variant": rng.choice(["core", "prob", "transfn"]),
-                            "mat": canon.enc(pts), "shift": shift, "sign": sign, "line": line})
-            elif r < 0.89:
-                # front collinear with the preference line: objective j is a_j + u_i * 2^k_j where the line is
-                # non-zero, constant where it is zero; u takes the values 0 and 1 => scaled point = u_i * (1,..,1)
-                npt = rng.choice([1, 2, 3, 5, 8])
-                nobj = rng.choice([1, 1, 2, 3, 4])
-                c = rng.choice([1, 2, 3])
-                line = [c * rng.choice([0, 1, 1]) for _ in range(nobj)]
-                if not any(line):
-                    line[rng.randrange(nobj)] = c
-                us = [Fraction(rng.randint(0, 8), 8) for _ in range(npt)]
-                if npt >= 2:
-                    us[0], us[1] = Fraction(0), Fraction(1)
-                    rng.shuffle(us)
-                sg = rng.choice([1, -1])
-                a = [rng.choice([0, 1, -3, 2 ** 20, 10 ** 6]) for _ in range(nobj)]
-                k = [2 ** rng.randint(0, 4) for _ in range(nobj)]
-                pts = [[a[j] + (u * k[j] if line[j] else 0) for j in range(nobj)] for u in us]
-                out.append({"kind": "dist", "variant": rng.choice(["core", "prob", "transfn"]),
-                            "mat": canon.enc(pts), "sign": [sg] * nobj, "line": line, "expect_zero": True})
+            if r < 0.33:
+                out.append(self._gen_pareto(rng))
+            elif r < 0.37:
+                out.append(self._gen_pareto_seq(rng))
+            elif r < 0.42:
+                out.append(self._gen_pareto_perm(rng))
+            elif r < 0.60:
+                out.append(self._gen_dominates(rng))
+            elif r < 0.68:
+                out.append(self._gen_dist_pair(rng))
+            elif r < 0.72:
+                out.append(self._gen_dist_zero(rng))
+            elif r < 0.80:
+                out.append(self._gen_dist(rng, "dist3"))
+            elif r < 0.83:
+                out.append(self._gen_dist_seq(rng))
+            elif r < 0.87:
+                out.append(self._gen_wsum(rng))
             else:
-                pts, nobj = self._points(rng)
-                if rng.random() < 0.3 and nobj >= 1:     # one constant objective
-                    j = rng.randrange(nobj)
-                    for p in pts:
-                        p[j] = pts[0][j]
-                if rng.random() < 0.35:                  # translated front: a large level with a small range
-                    off = [rng.choice([0, 2 ** 20, 10 ** 6, 2 ** 23, -(10 ** 7), 12345678]) for _ in range(nobj)]
-                    pts = [[v + o for v, o in zip(p, off)] for p in pts]
-                sign = [rng.choice([1, -1]) for _ in range(nobj)]
-                line = [rng.choice([0, 1, 1, 2, 3]) for _ in range(nobj)]
-                if not any(line):
-                    line[rng.randrange(nobj)] = 1
-                out.append({"kind": "dist", "variant": rng.choice(["core", "prob", "transfn"]),
-                            "mat": canon.enc(pts), "sign": sign, "line": line})
+                out.append(self._gen_dist(rng))
         return out
 
     # ------------------------------------------------------------------ implementation
-    def run_impl(self, case):
-        pareto, ctrans, ptrans, transfn, addon = _mods()
-        k = case["kind"]
-        if k == "pareto":
-            fmat = _arr(case["fmat"])
-            wt = numpy.array([_f(v) for v in case["wt"]])
-            f0 = fmat.copy()
-            mask = pareto.is_pareto_efficient(fmat, wt, return_mask=True)
-            idx = pareto.is_pareto_efficient(fmat, wt, return_mask=False)
-            return {"mask": canon.enc(mask), "idx": canon.enc(idx), "input_untouched": bool((f0 == fmat).all())}
-        if k == "dominates":
-            r = addon.dominates(numpy.array([_f(v) for v in case["obj1"]]), _f(case["cv1"]),
-                                numpy.array([_f(v) for v in case["obj2"]]), _f(case["cv2"]))
-            return {"dom": bool(r)}
-        if k in ("dist", "dist_pair"):
-            sign = numpy.array([float(v) for v in case["sign"]])
-            line = numpy.array([float(v) for v in case["line"]])
-            v = case["variant"]
+    @staticmethod
+    def _pareto_calls(pareto, fmat, wt, order, flag="py"):
+        """mask and index forms on the SAME array objects, in the requested order; `flag` = how the Boolean
+        `return_mask` is spelled (Python bool, numpy.bool_, 0/1)"""
+        T, F = {"py": (True, False), "np": (numpy.bool_(True), numpy.bool_(False)), "int": (1, 0)}[flag]
+        mask = idx = None
+        if order in ("mask_first", "mask_only"):
+            mask = pareto.is_pareto_efficient(fmat, wt, return_mask=T)
+            if order == "mask_first":
+                idx = pareto.is_pareto_efficient(fmat, wt, F)
+        else:
+            idx = pareto.is_pareto_efficient(fmat, wt, return_mask=F)
+            if order == "idx_first":
+                mask = pareto.is_pareto_efficient(fmat, wt)          # return_mask defaults to True
+        return mask, idx
 
-            def call(rows):
-                mat = _arr(rows)
-                if v == "core":
-                    d = ctrans.trans_ndpt_pseudo_dist(mat, sign.copy(), line.copy())
-                elif v == "prob":
-                    d = ptrans.trans_ndpt_to_vec_dist(mat, line.copy(), sign.copy())   # (mat, obj_wt=line, vec_wt=sign)
-                else:
-                    d = transfn.trans_ndpt_to_vec_dist(mat, line.copy(), sign.copy())  # (mat, objfn_wt=line, wt=sign)
-                return canon.enc(d)
+    def _impl_wt(self, case, wt=None):
+        wt = case["wt"] if wt is None else wt
+        if case.get("wdtype", "float64").startswith("int"):
+            return _vec(wt, case["wdtype"])
+        w = _vec(wt)
+        if case.get("scale"):
+            w = w * numpy.array([_f(s) for s in case["scale"]])
+        return w
+
+    def _dist_call(self, mods, variant, mat, sign, line, call="pos"):
+        _, ctrans, ptrans, transfn, _ = mods
+        if variant == "protocol":
+            # the default `ndset_trans` / `ndset_trans_kwargs` of SelectionProtocol, obtained through the property
+            # setters (no protocol object is needed for that) and called the way SubsetSelectionProtocol.select does
+            import pybrops.breed.prot.sel.SelectionProtocol as SP
+
+            class _Holder:
+                pass
+            h = _Holder()
+            h.nobj = h._nobj = int(mat.shape[1])
+            try:
+                SP.SelectionProtocol.ndset_trans.fset(h, None)
+                SP.SelectionProtocol.ndset_trans_kwargs.fset(h, None)
+                fn, kw = SP.SelectionProtocol.ndset_trans.fget(h), SP.SelectionProtocol.ndset_trans_kwargs.fget(h)
+            except AttributeError:
+                # the class no longer exposes the two properties this way: use the documented default directly
+                fn = ptrans.trans_ndpt_to_vec_dist
+                kw = {"obj_wt": numpy.repeat(1.0, h.nobj), "vec_wt": numpy.repeat(1.0, h.nobj)}
+            return fn(mat, **kw)
+        fn = {"core": ctrans.trans_ndpt_pseudo_dist, "prob": ptrans.trans_ndpt_to_vec_dist,
+              "transfn": transfn.trans_ndpt_to_vec_dist}[variant]
+        skw, lkw = DIST_KW[variant]
+        extra = {"verbose": False, "nobj": int(mat.shape[1])}
+        if call == "pos":
+            return fn(mat, sign, line) if variant == "core" else fn(mat, line, sign)
+        if call == "pos_extra":
+            return fn(mat, sign, line, **extra) if variant == "core" else fn(mat, line, sign, **extra)
+        kw = {skw: sign, lkw: line}
+        if call == "kw_extra":
+            kw.update(extra)
+        return fn(mat, **kw)
+
+    def run_impl(self, case):
+        limit = 600 if case["kind"] == "pareto_exh" else (60 if len(case.get("fmat", case.get("mat", []))) > 2000 else 5)
+        try:
+            with _deadline(limit):
+                return self._run_impl(case)
+        except TimeoutError:
+            self._timeouts = getattr(self, "_timeouts", 0) + 1
+            raise
+
+    def _run_impl(self, case):
+        mods = _mods()
+        pareto, ctrans, ptrans, transfn, addon = mods
+        k = case["kind"]
+        if k == "pareto_exh":
+            return self._run_exh(pareto, case)
+        if k == "pareto":
+            fmat = _arr(case["fmat"], case.get("fdtype", "float64"), case.get("layout", "C"))
+            wt = self._impl_wt(case)
+            f0, w0 = fmat.copy(), wt.copy()
+            mask, idx = self._pareto_calls(pareto, fmat, wt, case.get("order", "mask_first"), case.get("flag", "py"))
+            return {"mask": canon.enc(mask), "idx": canon.enc(idx),
+                    "input_untouched": bool((f0 == fmat).all() and (w0 == wt).all())}
+        if k == "pareto_perm":
+            fmat = _arr(case["fmat"], case.get("fdtype", "float64"), case.get("layout", "C"))
+            wt = self._impl_wt(case)
+            f0 = fmat.copy()
+            mask, idx = self._pareto_calls(pareto, fmat, wt, "mask_first")
+            fp = numpy.ascontiguousarray(fmat[case["perm"]])
+            maskp, idxp = self._pareto_calls(pareto, fp, wt, "idx_first")
+            return {"mask": canon.enc(mask), "idx": canon.enc(idx), "maskp": canon.enc(maskp), "idxp": canon.enc(idxp),
+                    "input_untouched": bool((f0 == fmat).all())}
+        if k == "pareto_seq":
+            steps = case["steps"]
+            A = _arr(steps[0]["fmat"], case.get("fdtype", "float64")).copy()
+            W = _vec(steps[0]["wt"]).copy()
+            kept, snaps, outs = [], [], []
+            untouched = True
+            prev = None
+            for st in steps:
+                # the same array objects throughout: edited in place only where the step changes them
+                if prev is None or st["fmat"] != prev["fmat"]:
+                    A[...] = _arr(st["fmat"])
+                if prev is None or st["wt"] != prev["wt"]:
+                    W[...] = _vec(st["wt"])
+                prev = st
+                a0, w0 = A.copy(), W.copy()
+                mask, idx = self._pareto_calls(pareto, A, W, st.get("order", "mask_first"))
+                untouched = untouched and bool((a0 == A).all() and (w0 == W).all())
+                for r in (mask, idx):
+                    if r is not None:
+                        kept.append(r)
+                        snaps.append(numpy.array(r, copy=True))
+                outs.append({"mask": canon.enc(mask), "idx": canon.enc(idx)})
+            stable = all(a.shape == b.shape and bool((a == b).all()) for a, b in zip(kept, snaps))
+            return {"steps": outs, "input_untouched": untouched, "results_stable": stable}
+        if k == "dominates":
+            od = case.get("odtype", "float64")
+            o1, o2 = _vec(case["obj1"], od), _vec(case["obj2"], od)
+            form = case.get("cvform", "pyfloat")
+            cv = {"pyfloat": lambda c: _f(c), "int": lambda c: int(Fraction(c)),
+                  "np64": lambda c: numpy.float64(_f(c)), "0d": lambda c: numpy.array(_f(c))}[form]
+            r = addon.dominates(o1, cv(case["cv1"]), o2, cv(case["cv2"]))
+            return {"dom": bool(r)}
+        if k in ("dist", "dist_pair", "dist3"):
+            sign = _vec(case["sign"], case.get("sdtype", "float64"))
+            line = _vec(case["line"])
+
+            def call(rows, v):
+                mat = _arr(rows, case.get("mdtype", "float64"), case.get("layout", "C"))
+                m0, s0, l0 = mat.copy(), sign.copy(), line.copy()
+                d = self._dist_call(mods, v, mat, sign, line, case.get("call", "pos"))
+                ok = bool((m0 == mat).all() and (s0 == sign).all() and (l0 == line).all())
+                return canon.enc(d), ok
 
             if k == "dist":
-                return {"d": call(case["mat"])}
-            return {"d": call(case["mat"]), "dt": call(self._translated(case))}
+                d, ok = call(case["mat"], case["variant"])
+                return {"d": d, "input_untouched": ok}
+            if k == "dist3":
+                res = [call(case["mat"], v) for v in VARIANTS]
+                return {"d3": [r[0] for r in res], "input_untouched": all(r[1] for r in res)}
+            d, ok = call(case["mat"], case["variant"])
+            dt, okt = call(self._translated(case), case["variant"])
+            return {"d": d, "dt": dt, "input_untouched": ok and okt}
+        if k == "dist_seq":
+            steps = case["steps"]
+            A = _arr(steps[0]["mat"]).copy()
+            S = _vec(steps[0]["sign"]).copy()
+            L = _vec(steps[0]["line"]).copy()
+            kept, snaps, outs = [], [], []
+            untouched = True
+            prev = None
+            for st in steps:
+                if prev is None or st["mat"] != prev["mat"]:
+                    A[...] = _arr(st["mat"])
+                if prev is None or st["sign"] != prev["sign"]:
+                    S[...] = _vec(st["sign"])
+                if prev is None or st["line"] != prev["line"]:
+                    L[...] = _vec(st["line"])
+                prev = st
+                a0, s0, l0 = A.copy(), S.copy(), L.copy()
+                d = self._dist_call(mods, st["variant"], A, S, L)
+                untouched = untouched and bool((a0 == A).all() and (s0 == S).all() and (l0 == L).all())
+                kept.append(d)
+                snaps.append(numpy.array(d, copy=True))
+                outs.append(canon.enc(d))
+            stable = all(a.shape == b.shape and bool((a == b).all()) for a, b in zip(kept, snaps))
+            return {"steps": outs, "input_untouched": untouched, "results_stable": stable}
+        if k == "wsum":
+            fn = case["fn"]
+            if fn == "dot":
+                return {"out": canon.enc(transfn.trans_dot(_arr(case["mat"]), _vec(case["wt"])))}
+            if fn in ("sum1", "sum0", "sumall"):
+                axis = {"sum1": 1, "sum0": 0, "sumall": None}[fn]
+                return {"out": canon.enc(transfn.trans_sum(_arr(case["mat"]), axis))}
+            decn = numpy.zeros(3)
+            if fn == "latent_sum":
+                return {"out": canon.enc(ptrans.trans_sum(decn, _vec(case["vec"])))}
+            return {"out": canon.enc(ptrans.trans_dot(decn, _vec(case["vec"]), _vec(case["wt"])))}
         raise ValueError(k)
 
     @staticmethod
@@ -222,45 +751,131 @@ class C19(Prop):
                 "rel": canon.enc(self.REL), "abs": canon.enc(self.ABS if abs_ is None else abs_)}
 
     # ------------------------------------------------------------------ model requests
+    @staticmethod
+    def _preq(fmat, wt, mask, idx):
+        return [{"op": "c19.pareto", "fmat": fmat, "wt": wt},
+                {"op": "c19.spec_pareto", "fmat": fmat, "wt": wt, "mask": mask, "idx": idx}]
+
+    @staticmethod
+    def _fill(mask, idx, n):
+        """a step that called only one form: derive the other one so that the Spec op sees a consistent pair"""
+        if mask is None and idx is not None:
+            mask = [i in set(idx) for i in range(n)]
+        if idx is None and mask is not None:
+            idx = [i for i, b in enumerate(mask) if b]
+        return mask, idx
+
     def requests(self, case, obs):
         k = case["kind"]
+        if k == "pareto_exh":
+            return [{"op": "c19.exh", **{f: case[f] for f in ("lv", "nobj", "npt", "start", "count", "wt")},
+                     "masks": obs["masks"]}]
         if k == "pareto":
-            return [{"op": "c19.pareto", "fmat": case["fmat"], "wt": case["wt"]},
-                    {"op": "c19.spec_pareto", "fmat": case["fmat"], "wt": case["wt"],
-                     "mask": obs["mask"], "idx": obs["idx"]}]
+            return self._preq(case["fmat"], case["wt"], obs["mask"], obs["idx"])
+        if k == "pareto_perm":
+            fp = [case["fmat"][i] for i in case["perm"]]
+            return (self._preq(case["fmat"], case["wt"], obs["mask"], obs["idx"]) +
+                    self._preq(fp, case["wt"], obs["maskp"], obs["idxp"]))
+        if k == "pareto_seq":
+            out = []
+            for st, o in zip(case["steps"], obs["steps"]):
+                mask, idx = self._fill(o["mask"], o["idx"], len(st["fmat"]))
+                out += self._preq(st["fmat"], st["wt"], mask, idx)
+            return out
         if k == "dominates":
-            return [{"op": "c19.dominates", **{x: case[x] for x in ("obj1", "cv1", "obj2", "cv2")}}]
+            args = {x: case[x] for x in ("obj1", "cv1", "obj2", "cv2")}
+            return [{"op": "c19.dominates", **args}, {"op": "c19.spec_dominates", **args, "claimed": obs["dom"]}]
         if k == "dist":
             abs_ = self.ABS_ZERO if case.get("expect_zero") else self.ABS
             return [{"op": "c19.dist", "mat": case["mat"], "sign": case["sign"], "line": case["line"],
-                     "guarded": True},
+                     "guarded": True, "variant": MODEL_VARIANT[case["variant"]]},
                     self._spec_req(case, case["mat"], obs["d"], abs_)]
+        if k == "dist3":
+            return ([{"op": "c19.dist", "mat": case["mat"], "sign": case["sign"], "line": case["line"],
+                      "guarded": True, "variant": v} for v in VARIANTS] +
+                    [self._spec_req(case, case["mat"], d) for d in obs["d3"]])
         if k == "dist_pair":
             mt = self._translated(case)
             return [{"op": "c19.dist", "mat": case["mat"], "sign": case["sign"], "line": case["line"],
-                     "guarded": True},
-                    {"op": "c19.dist", "mat": mt, "sign": case["sign"], "line": case["line"], "guarded": True},
+                     "guarded": True, "variant": case["variant"]},
+                    {"op": "c19.dist", "mat": mt, "sign": case["sign"], "line": case["line"], "guarded": True,
+                     "variant": case["variant"]},
                     self._spec_req(case, case["mat"], obs["d"]),
                     self._spec_req(case, mt, obs["dt"])]
+        if k == "dist_seq":
+            out = []
+            for st, d in zip(case["steps"], obs["steps"]):
+                out.append({"op": "c19.dist", "mat": st["mat"], "sign": st["sign"], "line": st["line"],
+                            "guarded": True, "variant": MODEL_VARIANT[st["variant"]]})
+                out.append(self._spec_req(st, st["mat"], d))
+            return out
+        if k == "wsum":
+            r = {"op": "c19.wsum", "fn": case["fn"]}
+            for f in ("mat", "wt", "vec"):
+                if f in case:
+                    r[f] = case[f]
+            return [r]
         raise ValueError(k)
+
+    # ------------------------------------------------------------------ judge
+    def _judge_pareto(self, m, s, mask, idx, called=("mask", "idx")):
+        corr = all((m[f] == v) for f, v in (("mask", mask), ("idx", idx)) if f in called)
+        return corr, bool(s["ok"]), s["detail"]
 
     def judge(self, case, obs, answers):
         k = case["kind"]
         for a in answers:
             if "err" in a:
                 raise RuntimeError("driver error: " + a["err"])
+        if k == "pareto_exh":
+            a = answers[0]["ok"]
+            bad = a["spec_bad"]
+            corr = a["model"] == obs["masks"] and obs["idx_bad"] is None and obs["order_bad"] is None
+            spec = not bad and obs["idx_bad"] is None
+            first = bad[0] if bad else obs["idx_bad"]
+            why = "" if first is None else f" first failing set #{first}: {self._exh_set(case['lv'], case['nobj'], case['npt'], first)}"
+            return {"corr": corr, "spec": spec, "nontrivial": case["npt"] >= 2,
+                    "detail": f"pareto_exh {case['count']} sets from #{case['start']} ({case['npt']} points x {case['nobj']} "
+                              f"objectives over 0..{case['lv'] - 1}, wt={case['wt']}): spec_false={len(bad)} "
+                              f"mask_vs_index_disagreement={obs['idx_bad']}{why}"}
         if k == "pareto":
-            m, s = answers[0]["ok"], answers[1]["ok"]
-            corr = (m["mask"] == obs["mask"] and m["idx"] == obs["idx"])
-            spec = bool(s["ok"]) and obs["input_untouched"]
+            corr, spec, why = self._judge_pareto(answers[0]["ok"], answers[1]["ok"], obs["mask"], obs["idx"])
+            spec = spec and obs["input_untouched"]
             pts = [tuple(r) for r in case["fmat"]]
             nontriv = len(set(map(str, pts))) >= 2 and (not all(obs["mask"]))
             return {"corr": corr, "spec": spec, "nontrivial": nontriv,
-                    "detail": f"pareto model={m} impl={obs} spec={s['detail']}"}
+                    "detail": f"pareto model={self._short(answers[0]['ok'])} impl={self._short(obs)} spec={why}"}
+        if k == "pareto_perm":
+            c0, s0, w0 = self._judge_pareto(answers[0]["ok"], answers[1]["ok"], obs["mask"], obs["idx"])
+            c1, s1, w1 = self._judge_pareto(answers[2]["ok"], answers[3]["ok"], obs["maskp"], obs["idxp"])
+            fp = [case["fmat"][i] for i in case["perm"]]
+            wt = [Fraction(w) for w in case["wt"]]
+            wv = lambda r: tuple(Fraction(v) * w for v, w in zip(r, wt))
+            e0 = {wv(r) for r, b in zip(case["fmat"], obs["mask"]) if b}
+            e1 = {wv(r) for r, b in zip(fp, obs["maskp"]) if b}
+            same = e0 == e1
+            m0, m1 = answers[0]["ok"], answers[2]["ok"]
+            # model: one index per distinct efficient vector, so the number of efficient indices is order independent
+            corr = c0 and c1 and len(m0["idx"]) == len(m1["idx"])
+            nontriv = len(set(map(str, case["fmat"]))) >= 2 and not all(obs["mask"]) and case["perm"] != sorted(case["perm"])
+            return {"corr": corr, "spec": s0 and s1 and same and obs["input_untouched"], "nontrivial": nontriv,
+                    "detail": f"pareto_perm impl={self._short(obs)} original: {w0} permuted: {w1} same_efficient_vectors={same}"}
+        if k == "pareto_seq":
+            corr, spec, why = True, True, []
+            for i, (st, o) in enumerate(zip(case["steps"], obs["steps"])):
+                called = [f for f in ("mask", "idx") if o[f] is not None]
+                mask, idx = self._fill(o["mask"], o["idx"], len(st["fmat"]))
+                c, s, w = self._judge_pareto(answers[2 * i]["ok"], answers[2 * i + 1]["ok"], mask, idx, called)
+                corr, spec = corr and c, spec and s
+                why.append(f"step {i}: model={answers[2 * i]['ok']} impl={o} {w}")
+            spec = spec and obs["input_untouched"] and obs["results_stable"]
+            return {"corr": corr, "spec": spec, "nontrivial": len(case["steps"][0]["fmat"]) >= 2,
+                    "detail": f"pareto_seq input_untouched={obs['input_untouched']} results_stable={obs['results_stable']} "
+                              + " | ".join(why)}
         if k == "dominates":
-            m = answers[0]["ok"]
+            m, s = answers[0]["ok"], answers[1]["ok"]
             corr = (m == obs["dom"])
-            # Spec (definition, evaluated here on the implementation's answer)
+            # Spec: Pareto.Q.specDominates in Lean, cross-checked against an independent Python rendering
             o1 = [Fraction(v) for v in case["obj1"]]
             o2 = [Fraction(v) for v in case["obj2"]]
             c1, c2 = Fraction(case["cv1"]), Fraction(case["cv2"])
@@ -268,27 +883,42 @@ class C19(Prop):
                 want = all(a <= b for a, b in zip(o1, o2)) and any(a < b for a, b in zip(o1, o2))
             else:
                 want = c1 < c2
-            return {"corr": corr, "spec": obs["dom"] == want, "nontrivial": o1 != o2,
+            if want != s["want"]:
+                raise RuntimeError(f"c19.spec_dominates ({s}) and the Python definition ({want}) disagree on {case}")
+            return {"corr": corr, "spec": bool(s["ok"]), "nontrivial": o1 != o2,
                     "detail": f"dominates model={m} impl={obs['dom']} definition={want}"}
         if k == "dist":
             m = answers[0]["ok"]
             d = obs["d"]
-            corr = self._corr_dist(m, d)
-            # Spec: finite, one per point, equal to the geometric definition — evaluated in Lean
-            # (Pareto.specDist, proved to accept the model's output: C19.Q_spec_dist_sound) on the
-            # implementation's exact squared distances; the Python twin must give the same verdict
+            corr = self._corr_dist(m, d) and obs["input_untouched"]
             abs_ = self.ABS_ZERO if case.get("expect_zero") else self.ABS
             spec, why = self._lean_spec(case, case["mat"], d, answers[1]["ok"], abs_)
             if case.get("expect_zero") and m is not None:
                 corr = corr and all(canon.dec(y) == 0 for y in m)    # exact 0 in the model
             nontriv = len(case["mat"]) >= 2 and len(case["sign"]) >= 2
             return {"corr": corr, "spec": spec, "nontrivial": nontriv,
-                    "detail": f"dist[{case['variant']}] model={m} impl={d} {why}"}
+                    "detail": f"dist[{case['variant']}] model={self._short(m)} impl={self._short(d)} {why}"}
+        if k == "dist3":
+            ms = [a["ok"] for a in answers[:3]]
+            ds = obs["d3"]
+            corr = all(self._corr_dist(m, d) for m, d in zip(ms, ds)) and ms[0] == ms[1] == ms[2] and obs["input_untouched"]
+            spec, why = True, []
+            for v, d, a in zip(VARIANTS, ds, answers[3:]):
+                s, w = self._lean_spec(case, case["mat"], d, a["ok"], self.ABS)
+                spec = spec and s
+                why.append(f"{v}: {w}")
+            finite = all(not isinstance(canon.dec(x), str) for d in ds for x in d)
+            agree = finite and all(len(d) == len(ds[0]) for d in ds) and all(
+                canon.close(canon.dec(x), canon.dec(y), rel=1e-9, abs_=1e-9)
+                for d in ds[1:] for x, y in zip(ds[0], d))
+            nontriv = len(case["mat"]) >= 2 and len(case["sign"]) >= 2
+            return {"corr": corr and agree, "spec": spec, "nontrivial": nontriv,
+                    "detail": f"dist3 impl={self._short(ds)} copies_agree={agree} " + " ".join(why)}
         if k == "dist_pair":
             m, mt = answers[0]["ok"], answers[1]["ok"]
             d, dt = obs["d"], obs["dt"]
             # model side: translation invariance is a theorem (C19.Q_dist_translation_invariant): exact equality
-            corr = self._corr_dist(m, d) and self._corr_dist(mt, dt) and m == mt
+            corr = self._corr_dist(m, d) and self._corr_dist(mt, dt) and m == mt and obs["input_untouched"]
             s0, why0 = self._lean_spec(case, case["mat"], d, answers[2]["ok"], self.ABS)
             s1, why1 = self._lean_spec(case, self._translated(case), dt, answers[3]["ok"], self.ABS)
             finite = all(not isinstance(canon.dec(x), str) for x in list(d) + list(dt))
@@ -299,7 +929,31 @@ class C19(Prop):
             return {"corr": corr, "spec": spec, "nontrivial": nontriv,
                     "detail": f"dist_pair[{case['variant']}] model={m} impl={d} impl_translated={dt} "
                               f"translation_invariant={same} original: {why0} translated: {why1}"}
+        if k == "dist_seq":
+            corr, spec, why = True, True, []
+            for i, (st, d) in enumerate(zip(case["steps"], obs["steps"])):
+                corr = corr and self._corr_dist(answers[2 * i]["ok"], d)
+                s, w = self._lean_spec(st, st["mat"], d, answers[2 * i + 1]["ok"], self.ABS)
+                spec = spec and s
+                why.append(f"step {i} [{st['variant']}]: impl={d} {w}")
+            spec = spec and obs["results_stable"]
+            corr = corr and obs["input_untouched"]
+            nontriv = len(case["steps"][0]["mat"]) >= 2 and len(case["steps"][0]["sign"]) >= 2
+            return {"corr": corr, "spec": spec, "nontrivial": nontriv,
+                    "detail": f"dist_seq input_untouched={obs['input_untouched']} results_stable={obs['results_stable']} "
+                              + " | ".join(why)}
+        if k == "wsum":
+            # outside the property statement (only the distance transformations are named): correspondence only
+            m = answers[0]["ok"]
+            corr = canon.close_enc(m, obs["out"], rel=1e-12, abs_=1e-12)
+            return {"corr": corr, "spec": True, "nontrivial": True,
+                    "detail": f"wsum[{case['fn']}] model={m} impl={obs['out']}"}
         raise ValueError(k)
+
+    @staticmethod
+    def _short(x, lim=400):
+        s = str(x)
+        return s if len(s) <= lim else s[:lim] + "..."
 
     @staticmethod
     def _corr_dist(m, d):
@@ -327,7 +981,8 @@ class C19(Prop):
             return False, "non-finite distance"
         if len(d) != len(mat):
             return False, "one distance per point expected"
-        P = [[Fraction(v) * s for v, s in zip(r, sign)] for r in mat]
+        sg = [Fraction(s) for s in sign]
+        P = [[Fraction(v) * s for v, s in zip(r, sg)] for r in mat]
         cols = list(zip(*P)) if P else []
         sc = []
         for c in cols:
@@ -345,28 +1000,140 @@ class C19(Prop):
                 return False, f"distance {x} != sqrt({want})"
         return True, "definition ok"
 
+    # ------------------------------------------------------------------ exhaustive enumeration
+    @staticmethod
+    def _exh_set(lv, nobj, npt, k):
+        digs = []
+        for _ in range(nobj * npt):
+            digs.append(k % lv)
+            k //= lv
+        digs.reverse()
+        return [digs[i * nobj:(i + 1) * nobj] for i in range(npt)]
+
+    def exhaustive(self, tier):
+        """every ordered point set of `npt` points x `nobj` objectives over {0..lv-1} (blocks evaluated by c19.exh)"""
+        if tier == "quick":
+            specs = [(3, 2, 1, [1, 1]), (3, 2, 2, [1, 1]), (3, 2, 3, [1, -1]), (3, 1, 3, [-1]), (2, 3, 3, [1, 1, 1])]
+            blocks = 1
+        else:
+            specs = ([(3, 1, n, [1]) for n in range(1, 7)] + [(3, 2, n, [1, 1]) for n in range(1, 6)] +
+                     [(3, 2, 4, [1, -1]), (3, 2, 5, [-1, "1/2"]), (2, 4, 4, [1, -1, 1, 1])] +
+                     [(3, 3, n, [1, 1, 1]) for n in range(1, 5)] + [(3, 3, 3, [1, -2, "1/2"])] +
+                     [(3, 2, 6, [1, 1]), (2, 3, 5, [1, 1, -1]), (2, 2, 8, [1, 1]), (4, 2, 4, [1, -1])])
+            blocks = None
+        out = []
+        for lv, nobj, npt, wt in specs:
+            total = lv ** (nobj * npt)
+            nb = 1 if blocks else max(1, total // 20000)
+            size = -(-total // nb)
+            for s in range(0, total, size):
+                out.append({"kind": "pareto_exh", "lv": lv, "nobj": nobj, "npt": npt, "wt": wt,
+                            "start": s, "count": min(size, total - s)})
+        if tier != "quick":
+            grid = list(itertools.product(range(3), repeat=2))
+            cvs = [-1, 0, canon.enc(1e-9), 1, 2]
+            for o1 in grid:
+                for o2 in grid:
+                    for c1 in cvs:
+                        for c2 in cvs:
+                            out.append({"kind": "dominates", "obj1": list(o1), "cv1": c1, "obj2": list(o2), "cv2": c2})
+        return out
+
+    def _run_exh(self, pareto, case):
+        lv, nobj, npt = case["lv"], case["nobj"], case["npt"]
+        wt = _vec(case["wt"])
+        ks = numpy.arange(case["start"], case["start"] + case["count"], dtype=numpy.int64)
+        D = numpy.empty((len(ks), nobj * npt), dtype=numpy.int64)
+        rem = ks.copy()
+        for c in range(nobj * npt - 1, -1, -1):
+            D[:, c] = rem % lv
+            rem //= lv
+        F = D.reshape(len(ks), npt, nobj).astype(float)
+        bits = []
+        idx_bad = None          # Spec level: the two forms do not describe the same set of points
+        order_bad = None        # correspondence level: index form not the ascending list the model returns
+        for t in range(len(ks)):
+            f = F[t]
+            mask = pareto.is_pareto_efficient(f, wt, return_mask=True)
+            idx = pareto.is_pareto_efficient(f, wt, return_mask=False)
+            nz = numpy.flatnonzero(mask) if len(mask) == npt else None
+            ia = numpy.asarray(idx)
+            if idx_bad is None and not (numpy.asarray(mask).dtype == bool and nz is not None and ia.ndim == 1
+                                        and len(set(ia.tolist())) == len(ia) and set(ia.tolist()) == set(nz.tolist())):
+                idx_bad = int(ks[t])
+            if order_bad is None and not (nz is not None and numpy.array_equal(nz, ia)):
+                order_bad = int(ks[t])
+            m = numpy.zeros(npt, dtype=bool)
+            mm = numpy.asarray(mask)
+            if mm.shape == (npt,):
+                m = mm.astype(bool)
+            bits.append("".join("1" if b else "0" for b in m))
+        return {"masks": "".join(bits), "idx_bad": idx_bad, "order_bad": order_bad}
+
+    # ------------------------------------------------------------------ findings / shrinking
     def signature(self, case, obs, verdict):
         sig = {"kind": case["kind"]}
         if case["kind"] in ("dist", "dist_pair"):
             sig["variant"] = case["variant"]
-            P = [[Fraction(v) * s for v, s in zip(r, case["sign"])] for r in case["mat"]]
+            P = [[Fraction(v) * Fraction(s) for v, s in zip(r, case["sign"])] for r in case["mat"]]
             sig["constant_objective"] = any(len(set(c)) == 1 for c in zip(*P))
             sig["nan"] = isinstance(obs, dict) and any(x == "nan" for x in obs.get("d", []))
         return sig
 
     def shrink(self, case):
-        key = {"pareto": "fmat", "dist": "mat", "dist_pair": "mat"}.get(case["kind"])
+        k = case["kind"]
+        if getattr(self, "_timeouts", 0) > 6:
+            return          # the implementation hangs on these inputs: report the case as it is
+        if k == "pareto_exh":
+            if case["count"] > 1:
+                h = case["count"] // 2
+                yield dict(case, count=h)
+                yield dict(case, start=case["start"] + h, count=case["count"] - h)
+            else:
+                yield {"kind": "pareto", "fmat": self._exh_set(case["lv"], case["nobj"], case["npt"], case["start"]),
+                       "wt": case["wt"]}
+            return
+        if k in ("pareto_seq", "dist_seq"):
+            st = case["steps"]
+            for i in range(len(st)):
+                if len(st) > 1:
+                    yield dict(case, steps=st[:i] + st[i + 1:])
+            return
+        if k == "pareto_perm":
+            n = len(case["fmat"])
+            for i in range(n):
+                if n > 1:
+                    perm = [p - (p > i) for p in case["perm"] if p != i]
+                    yield dict(case, fmat=case["fmat"][:i] + case["fmat"][i + 1:], perm=perm)
+            return
+        key = {"pareto": "fmat", "dist": "mat", "dist_pair": "mat", "dist3": "mat"}.get(k)
         if key:
             rows = case[key]
-            for i in range(len(rows)):
+            if len(rows) > 40:
+                for a, b in ((0, len(rows) // 2), (len(rows) // 2, len(rows))):
+                    yield dict(case, **{key: rows[a:b]})
+                q = len(rows) // 8
+                for c in range(8):
+                    yield dict(case, **{key: rows[:c * q] + rows[(c + 1) * q:]})
+            for i in range(len(rows) if len(rows) <= 40 else 0):
                 if len(rows) > 1:
                     c = dict(case)
                     c[key] = rows[:i] + rows[i + 1:]
+                    yield c
+            for opt in ("layout", "fdtype", "mdtype", "call", "scale", "order", "sdtype", "wdtype", "flag"):
+                if opt in case:
+                    c = dict(case)
+                    del c[opt]
                     yield c
 
     # ------------------------------------------------------------------ self-test mutants
     def mutants(self):
         pareto, ctrans, ptrans, transfn, addon = _mods()
+        orig_filter = pareto.is_pareto_efficient
+        orig_dom = addon.dominates
+        orig_core = ctrans.trans_ndpt_pseudo_dist
+        orig_prob = ptrans.trans_ndpt_to_vec_dist
+        orig_fn = transfn.trans_ndpt_to_vec_dist
 
         @contextlib.contextmanager
         def patch(mod, name, new):
@@ -377,69 +1144,107 @@ class C19(Prop):
             finally:
                 setattr(mod, name, old)
 
-        def ge_filter(fmat, wt, return_mask=True):
-            fmat = fmat * (wt.flatten()[None, :])
-            npt = fmat.shape[0]
-            eff = numpy.arange(npt)
-            pt = 0
-            while pt < len(fmat):
-                m = numpy.any(fmat >= fmat[pt], axis=1)
-                m[pt] = True
-                eff = eff[m]
-                fmat = fmat[m]
-                pt = numpy.sum(m[:pt]) + 1
-            if return_mask:
-                out = numpy.zeros(npt, dtype=bool)
-                out[eff] = True
-                return out
-            return eff
+        def gen_filter(test, step=None, idx_dtype=None):
+            def flt(fmat, wt, return_mask=True):
+                fmat = fmat * (wt.flatten()[None, :])
+                npt = fmat.shape[0]
+                eff = numpy.arange(npt) if idx_dtype is None else numpy.arange(npt).astype(idx_dtype)
+                pt = 0
+                while pt < len(fmat):
+                    m = test(fmat, pt)
+                    m[pt] = True
+                    eff = eff[m]
+                    fmat = fmat[m]
+                    pt = (numpy.sum(m[:pt]) + 1) if step is None else step(pt)
+                if return_mask:
+                    out = numpy.zeros(npt, dtype=bool)
+                    out[eff] = True
+                    return out
+                return eff
+            return flt
 
-        def inc_filter(fmat, wt, return_mask=True):
-            fmat = fmat * (wt.flatten()[None, :])
-            npt = fmat.shape[0]
-            eff = numpy.arange(npt)
-            pt = 0
-            while pt < len(fmat):
-                m = numpy.any(fmat > fmat[pt], axis=1)
-                m[pt] = True
-                eff = eff[m]
-                fmat = fmat[m]
-                pt += 1
-            if return_mask:
-                out = numpy.zeros(npt, dtype=bool)
-                out[eff] = True
-                return out
-            return eff
+        ge_filter = gen_filter(lambda f, pt: numpy.any(f >= f[pt], axis=1))
+        inc_filter = gen_filter(lambda f, pt: numpy.any(f > f[pt], axis=1), step=lambda pt: pt + 1)
+        isclose_filter = gen_filter(lambda f, pt: numpy.any((f > f[pt]) & ~numpy.isclose(f, f[pt]), axis=1))
+        uint8_filter = gen_filter(lambda f, pt: numpy.any(f > f[pt], axis=1), idx_dtype=numpy.uint8)
+
+        def wt_cast_filter(fmat, wt, return_mask=True):
+            return orig_filter(fmat, numpy.asarray(wt, dtype=fmat.dtype), return_mask)
+
+        def chunked_filter(fmat, wt, return_mask=True):
+            # blocks of 1024 points filtered independently, never merged
+            parts = [orig_filter(fmat[s:s + 1024], wt, True) for s in range(0, max(len(fmat), 1), 1024)]
+            mask = numpy.concatenate(parts) if parts else numpy.zeros(0, dtype=bool)
+            return mask if return_mask else numpy.flatnonzero(mask)
+
+        def inplace_filter(fmat, wt, return_mask=True):
+            fmat *= wt.flatten()[None, :]
+            return orig_filter(fmat, numpy.ones(fmat.shape[1]), return_mask)
+
+        memo = {}
+
+        def memo_filter(fmat, wt, return_mask=True):
+            key = (id(fmat), fmat.shape, tuple(numpy.sign(wt).tolist()), bool(return_mask))
+            if key not in memo:
+                memo[key] = orig_filter(fmat, wt, return_mask)
+            return memo[key]
+
+        def forder_filter(fmat, wt, return_mask=True):
+            flat = fmat.reshape(-1, order="A")            # memory order: scrambles Fortran-ordered input
+            return orig_filter(flat.reshape(fmat.shape), wt, return_mask)
+
+        def view_filter(fmat, wt, return_mask=True):
+            r = orig_filter(fmat, wt, return_mask)
+            if not return_mask:
+                return r.astype(numpy.int32)[::-1].copy()  # same set, order reversed: index form no longer ascending
+            return r
+
+        def flag_identity_filter(fmat, wt, return_mask=True):
+            return orig_filter(fmat, wt, return_mask is True)      # numpy.bool_(True) / 1 -> index form
 
         def dom_any(o1, c1, o2, c2):
             if c1 <= 0.0 and c2 <= 0.0:
                 return bool(numpy.any(o1 <= o2) and numpy.any(o1 < o2))
             return c1 < c2
 
-        def dist_noscale(ndptmat, mm, w, **kw):
-            m = ndptmat * mm
-            m = m - m.min(0)
-            mx = m.max(0)
-            mask = mx == 0
-            mx[mask] = 1.0
-            sc = 1.0 / mx
-            sc[mask] = 0.0
-            m = sc * m
-            P = m.dot(w)[:, None] * w          # projection without 1/(w.w)
-            return numpy.linalg.norm(m - P, axis=1)
+        def dom_eps(o1, c1, o2, c2):
+            if c1 <= 1e-8 and c2 <= 1e-8:
+                return bool(numpy.all(o1 <= o2) and numpy.any(o1 < o2))
+            return c1 < c2
+
+        def dom_isclose(o1, c1, o2, c2):
+            if c1 <= 0.0 and c2 <= 0.0:
+                eq = numpy.isclose(o1, o2)
+                return bool(numpy.all((o1 <= o2) | eq) and numpy.any((o1 < o2) & ~eq))
+            return c1 < c2
+
+        def dom_slack(o1, c1, o2, c2):
+            if c1 != c2:
+                return c1 < c2
+            if c1 <= 0.0:
+                return bool(numpy.all(o1 <= o2) and numpy.any(o1 < o2))
+            return False
+
+        def dom_int_cv(o1, c1, o2, c2):
+            return orig_dom(o1, int(c1), o2, int(c2))       # violations truncated toward zero
 
         def _project(m, w):
             s = m.dot(w) * (1.0 / w.dot(w))
             return numpy.linalg.norm(m - numpy.outer(s, w), axis=1)
 
-        def _guarded_scale(m):
+        def _guarded_scale(m, zero=lambda mx: mx == 0):
             m = m - m.min(0)
             mx = m.max(0)
-            mask = mx == 0
+            mask = zero(mx)
             mx[mask] = 1.0
             sc = 1.0 / mx
             sc[mask] = 0.0
             return sc * m
+
+        def dist_noscale(ndptmat, mm, w, **kw):
+            m = _guarded_scale(ndptmat * mm)
+            P = m.dot(w)[:, None] * w          # projection without 1/(w.w)
+            return numpy.linalg.norm(m - P, axis=1)
 
         def dist_scale_then_shift(mat, obj_wt, vec_wt, **kw):
             # the division by the column maximum is done before the minimum is subtracted:
@@ -466,14 +1271,105 @@ class C19(Prop):
                 m = (1.0 / m.max(0)) * m
                 return _project(m, w)
 
+        def dist_isclose_guard(ndptmat, mm, w, **kw):
+            return _project(_guarded_scale(ndptmat * mm, zero=lambda mx: numpy.isclose(mx, 0.0)), w)
+
+        def dist_int_trunc(mat, obj_wt, vec_wt, **kw):
+            m = _guarded_scale(mat * vec_wt)
+            if numpy.issubdtype(mat.dtype, numpy.integer):
+                m = m.astype(mat.dtype).astype(float)      # "keep the dtype of the input"
+            return _project(m, obj_wt)
+
+        def dist_chunked(mat, objfn_wt, wt, **kw):
+            # blocks of 1024 points scaled independently
+            return numpy.concatenate([orig_fn(mat[s:s + 1024], objfn_wt, wt) for s in range(0, len(mat), 1024)])
+
+        def dist_inplace(ndptmat, mm, w, **kw):
+            ndptmat *= mm
+            ndptmat -= ndptmat.min(0)
+            return orig_core(ndptmat, numpy.ones(ndptmat.shape[1]), w)
+
+        dmemo = {}
+
+        def dist_memo(mat, obj_wt, vec_wt, **kw):
+            key = (id(mat), mat.shape)
+            if key not in dmemo:
+                dmemo[key] = orig_prob(mat, obj_wt, vec_wt)
+            return dmemo[key]
+
+        def dist_int_line(mat, objfn_wt, wt, **kw):
+            with numpy.errstate(all="ignore"):
+                return orig_fn(mat, numpy.floor(objfn_wt), wt)     # preference vector truncated to integers
+
+        def dist_kw_positional(mat, vec_wt=None, obj_wt=None, **kw):
+            # positional order of the two vectors exchanged, keyword names kept
+            return orig_prob(mat, obj_wt, vec_wt)
+
+        def dist_kw_renamed(ndptmat, objfn_minmax=None, objfn_pseudoweight=None, **kw):
+            # an unknown keyword is taken for the preference vector
+            if "nobj" in kw:
+                objfn_pseudoweight = numpy.ones(int(kw["nobj"]))
+            return orig_core(ndptmat, objfn_minmax, objfn_pseudoweight)
+
+        def dist_forder(mat, objfn_wt, wt, **kw):
+            flat = mat.reshape(-1, order="A")
+            return orig_fn(flat.reshape(mat.shape), objfn_wt, wt)
+
+        def protocol_default_other(mat, obj_wt=None, vec_wt=None, **kw):
+            # default transformation of the protocol replaced by a "max of scaled objectives" score
+            return _guarded_scale(mat * vec_wt).max(1)
+
+        def dist_pythagoras(mat, obj_wt, vec_wt, **kw):
+            # sqrt(P.P - (P.L)^2/(L.L)) instead of the norm of the residual: cancels for points on the line
+            m = _guarded_scale(mat * vec_wt)
+            pl = m.dot(obj_wt)
+            with numpy.errstate(all="ignore"):
+                return numpy.sqrt(numpy.einsum("ij,ij->i", m, m) - (1.0 / obj_wt.dot(obj_wt)) * pl * pl)
+
+        def dot_abs(mat, wt, **kw):
+            return mat.dot(numpy.abs(wt))
+
+        def latent_sum_nokeep(decnvec, latentvec, **kw):
+            return numpy.array([latentvec[:-1].sum()]) if len(latentvec) > 1 else latentvec.sum(0, keepdims=True)
+
+        F, D = "is_pareto_efficient", "dominates"
+        T = "trans_ndpt_to_vec_dist"
         return [
-            ("dist_translation_after_scaling", lambda: patch(ptrans, "trans_ndpt_to_vec_dist", dist_scale_then_shift)),
-            ("dist_projection_on_wrong_vector", lambda: patch(transfn, "trans_ndpt_to_vec_dist", dist_wrong_vector)),
+            ("dist_translation_after_scaling", lambda: patch(ptrans, T, dist_scale_then_shift)),
+            ("dist_projection_on_wrong_vector", lambda: patch(transfn, T, dist_wrong_vector)),
             ("dist_guard_dropped", lambda: patch(ctrans, "trans_ndpt_pseudo_dist", dist_guard_dropped)),
-            ("filter_ge", lambda: patch(pareto, "is_pareto_efficient", ge_filter)),
-            ("filter_pt_increment", lambda: patch(pareto, "is_pareto_efficient", inc_filter)),
-            ("dominates_any", lambda: patch(addon, "dominates", dom_any)),
+            ("filter_ge", lambda: patch(pareto, F, ge_filter)),
+            ("filter_pt_increment", lambda: patch(pareto, F, inc_filter)),
+            ("dominates_any", lambda: patch(addon, D, dom_any)),
             ("projection_without_norm", lambda: patch(ctrans, "trans_ndpt_pseudo_dist", dist_noscale)),
+            # round 3: one mutant per explored class
+            ("filter_wt_cast_to_matrix_dtype", lambda: patch(pareto, F, wt_cast_filter)),
+            ("filter_isclose_ties", lambda: patch(pareto, F, isclose_filter)),
+            ("filter_uint8_indices", lambda: patch(pareto, F, uint8_filter)),
+            ("filter_chunks_of_1024", lambda: patch(pareto, F, chunked_filter)),
+            ("filter_weights_in_place", lambda: patch(pareto, F, inplace_filter)),
+            ("filter_memo_by_identity", lambda: patch(pareto, F, memo_filter)),
+            ("filter_memory_order", lambda: patch(pareto, F, forder_filter)),
+            ("filter_index_form_reversed", lambda: patch(pareto, F, view_filter)),
+            ("filter_flag_identity_test", lambda: patch(pareto, F, flag_identity_filter)),
+            ("dominates_cv_eps", lambda: patch(addon, D, dom_eps)),
+            ("dominates_obj_isclose", lambda: patch(addon, D, dom_isclose)),
+            ("dominates_by_slack", lambda: patch(addon, D, dom_slack)),
+            ("dominates_int_cv", lambda: patch(addon, D, dom_int_cv)),
+            ("dist_isclose_guard", lambda: patch(ctrans, "trans_ndpt_pseudo_dist", dist_isclose_guard)),
+            ("dist_int_truncation", lambda: patch(ptrans, T, dist_int_trunc)),
+            ("dist_chunks_of_1024", lambda: patch(transfn, T, dist_chunked)),
+            ("dist_in_place", lambda: patch(ctrans, "trans_ndpt_pseudo_dist", dist_inplace)),
+            ("dist_memo_by_identity", lambda: patch(ptrans, T, dist_memo)),
+            ("dist_integer_preference", lambda: patch(transfn, T, dist_int_line)),
+            ("dist_positional_order_swapped", lambda: patch(ptrans, T, dist_kw_positional)),
+            ("dist_extra_kwarg_used", lambda: patch(ctrans, "trans_ndpt_pseudo_dist", dist_kw_renamed)),
+            ("dist_memory_order", lambda: patch(transfn, T, dist_forder)),
+            ("protocol_default_replaced", lambda: patch(__import__("pybrops.breed.prot.sel.SelectionProtocol", fromlist=["x"]),
+                                                          T, protocol_default_other)),
+            ("dist_pythagoras_cancellation", lambda: patch(ptrans, T, dist_pythagoras)),
+            ("wsum_dot_abs", lambda: patch(transfn, "trans_dot", dot_abs)),
+            ("wsum_latent_sum_drops_last", lambda: patch(ptrans, "trans_sum", latent_sum_nokeep)),
         ]
 
 
